@@ -284,6 +284,10 @@ P2P_AdvanceLockstep(s, reqs, now) ==
   IN IF s3.err # "" THEN r
      ELSE <<[s4 EXCEPT !.sl = SL_SetLastConfirmed(s4.sl, bk, s4.sparse)], r[2]>>
 
+P2P_TrimEvents(s) ==
+  LET n == Len(s.evq)
+  IN IF n > MaxEventQueue THEN [s EXCEPT !.evq = SubSeq(@, n - MaxEventQueue + 1, n)] ELSE s
+
 \* max_frame_advantage / check_wait_recommendation
 P2P_MaxFrameAdvantage(s) ==
   LET c == {EP_AvgAdv(s.eps[a]) : a \in {x \in {s.raddrs[i] : i \in 1..Len(s.raddrs)} :
@@ -294,8 +298,8 @@ P2P_CheckWaitRecommendation(s) ==
   LET fa == P2P_MaxFrameAdvantage(s)
       s1 == [s EXCEPT !.frames_ahead = fa]
   IN IF s1.sl.cur > s1.next_sleep /\ fa >= MinRecommendation
-     THEN [s1 EXCEPT !.next_sleep = s1.sl.cur + RecommendationInterval,
-                     !.evq = Append(@, <<"Wait", fa>>)]      \* no cap here (as the code)
+     THEN P2P_TrimEvents([s1 EXCEPT !.next_sleep = s1.sl.cur + RecommendationInterval,
+                                    !.evq = Append(@, <<"Wait", fa>>)])   \* capped (repo commit 47bca96)
      ELSE s1
 
 \* check_checksum_send_interval
@@ -325,7 +329,7 @@ P2P_CheckChecksumSend(s, cells, now) ==
 \* compare_local_checksums_against_peers
 RECURSIVE P2P_CompareCk(_, _)
 P2P_CompareCk(s, i) ==
-  IF i > Len(s.raddrs) THEN s
+  IF i > Len(s.raddrs) THEN P2P_TrimEvents(s)
   ELSE LET a  == s.raddrs[i]
            pc == s.eps[a].pending_checksums
            chk == {f \in DOMAIN pc : f < s.sl.last_confirmed /\ f \in DOMAIN s.ck_hist}
